@@ -67,7 +67,8 @@ Section R.
     let w' := ser_parts d w (rec_parts d e ts args) in
     HI d user cs_size w' K (cur ++ [rec_spec d e ts cv sv pv]) /\ c_open (w_c w') = true /\
     c_in_ts (w_c w') = c_in_ts (w_c w) /\ c_enabled (w_c w') = c_enabled (w_c w) /\
-    c_psize (w_c w') = c_psize (w_c w) /\ w_err w = false /\ c_at (w_c w) < c_at (w_c w').
+    c_psize (w_c w') = c_psize (w_c w) /\ w_err w = false /\ c_at (w_c w) < c_at (w_c w') /\
+    c_off_content (w_c w') = c_off_content (w_c w).
   Proof.
     intros Hin Hargs (H1 & H2 & H3 & H4 & H5 & H6 & H7 & H8 & H9 & H10 & H11) Hop He. cbv zeta.
     rewrite Hop in H11. destruct H11 as (tsb & hs & HC & CH & TS).
